@@ -49,6 +49,7 @@ type Value struct {
 	Cell   int
 	Path   []int
 	T      string
+	Fn     *ssa.Function // a closure or function value: the function (its bindings in Elems)
 }
 
 func (v Value) String() string {
@@ -276,6 +277,10 @@ func (e *Eval) fresh(note string) Value {
 }
 
 func (e *Eval) call(fn *ssa.Function, args []Value, st *state, depth int) []result {
+	return e.callBound(fn, args, nil, st, depth)
+}
+
+func (e *Eval) callBound(fn *ssa.Function, args, binds []Value, st *state, depth int) []result {
 	if len(fn.Blocks) == 0 {
 		return []result{{Outcome{Incomplete: "no body: " + fn.String()}, st}}
 	}
@@ -287,8 +292,12 @@ func (e *Eval) call(fn *ssa.Function, args []Value, st *state, depth int) []resu
 			fr.env[p] = e.fresh("param " + p.Name())
 		}
 	}
-	for _, fv := range fn.FreeVars {
-		fr.env[fv] = e.fresh("freevar " + fv.Name())
+	for i, fv := range fn.FreeVars {
+		if i < len(binds) {
+			fr.env[fv] = binds[i]
+		} else {
+			fr.env[fv] = e.fresh("freevar " + fv.Name())
+		}
 	}
 	return e.block(fr, fn.Blocks[0], nil, 0, st, depth)
 }
@@ -315,7 +324,7 @@ func (e *Eval) val(fr *frame, v ssa.Value) Value {
 		}
 		return C(x.Value)
 	case *ssa.Function:
-		return Value{K: NonNil, T: "func " + x.String()}
+		return Value{K: NonNil, T: "func " + x.String(), Fn: x}
 	case *ssa.Global:
 		if e.globals == nil {
 			e.globals = map[string]*ssa.Global{}
@@ -631,7 +640,14 @@ func (e *Eval) block(fr *frame, b *ssa.BasicBlock, prev *ssa.BasicBlock, from in
 				fr.env[x] = Value{K: Unknown, T: fmt.Sprintf("%s.%d", t.Term(), x.Index)}
 			}
 		case *ssa.MakeClosure:
-			fr.env[x] = Value{K: NonNil, T: "closure " + x.Fn.String()}
+			cl := Value{K: NonNil, T: "closure " + x.Fn.String()}
+			if fn, ok := x.Fn.(*ssa.Function); ok {
+				cl.Fn = fn
+				for _, b := range x.Bindings {
+					cl.Elems = append(cl.Elems, e.val(fr, b))
+				}
+			}
+			fr.env[x] = cl
 		case *ssa.MakeMap:
 			e.nsym++
 			st.maps = append(st.maps, map[string]Value{})
@@ -918,6 +934,18 @@ func (e *Eval) doCall(fr *frame, x *ssa.Call, st *state, depth int) []result {
 			return []result{{Outcome{Rets: []Value{res}}, st}}
 		}
 	}
+	// (*sync.Once).Do(f): the once-only initialiser is evaluated in place (the model is "it runs now": what it
+	// builds is what later code sees)
+	if callee.String() == "(*sync.Once).Do" && len(args) == 2 && args[1].Fn != nil && depth < e.MaxDepth {
+		var out []result
+		for _, r := range e.callBound(args[1].Fn, nil, args[1].Elems, st, depth+1) {
+			if r.out.Incomplete == "" && !r.out.Panics {
+				r.out.Rets = nil
+			}
+			out = append(out, r)
+		}
+		return out
+	}
 	if res, ok := foldPure(callee.String(), args); ok {
 		return []result{{Outcome{Rets: res}, st}}
 	}
@@ -954,6 +982,11 @@ func constIndex(v Value, n int) (int, bool) {
 
 // foldPure folds calls of a few pure standard-library functions whose arguments are all constants.
 func foldPure(name string, args []Value) ([]Value, bool) {
+	if name == "strconv.Itoa" && len(args) == 1 && args[0].K == Const && args[0].C.Kind() == constant.Int {
+		if n, ok := constant.Int64Val(args[0].C); ok {
+			return []Value{Str(strconv.FormatInt(n, 10))}, true
+		}
+	}
 	strs := make([]string, len(args))
 	for i, a := range args {
 		if a.K != Const || a.C.Kind() != constant.String {
